@@ -404,7 +404,7 @@ def same_relation(repo: Repo, module: Module, test: ast.expr, want: ast.expr) ->
     return d1 == d2 or d1 == {k: -v for k, v in d2.items()}
 
 
-def inline_properties(repo: Repo, module: Module, expr: ast.AST, var: str, ci: Optional[ClassInfo], depth: int = 0) -> ast.AST:
+def inline_properties(repo: Repo, module: Module, expr: ast.AST, var: str, ci: Optional[ClassInfo], depth: int = 0, exclude=()) -> ast.AST:
     """`var.p` where p is a @property of class ci whose body is a single `return E`: replaced by E[self := var]."""
     if ci is None or depth > 4:
         return expr
@@ -412,7 +412,7 @@ def inline_properties(repo: Repo, module: Module, expr: ast.AST, var: str, ci: O
     class T(ast.NodeTransformer):
         def visit_Attribute(self, n):
             self.generic_visit(n)
-            if isinstance(n.value, ast.Name) and n.value.id == var and ci.is_property(n.attr):
+            if isinstance(n.value, ast.Name) and n.value.id == var and ci.is_property(n.attr) and n.attr not in exclude:
                 fn = ci.methods[n.attr]
                 body = [b for b in fn.body if not (isinstance(b, ast.Expr) and isinstance(b.value, ast.Constant))]
                 if len(body) == 1 and isinstance(body[0], ast.Return) and body[0].value is not None:
@@ -422,7 +422,7 @@ def inline_properties(repo: Repo, module: Module, expr: ast.AST, var: str, ci: O
                         def visit_Name(self, x):
                             return ast.Name(id=var, ctx=x.ctx) if x.id == "self" else x
 
-                    return inline_properties(repo, module, S().visit(e), var, ci, depth + 1)
+                    return inline_properties(repo, module, S().visit(e), var, ci, depth + 1, exclude)
             return n
 
     return T().visit(copy.deepcopy(expr))
